@@ -64,6 +64,12 @@ fn main() {
         "dbg" => {
             println!("MIN_UTC {} MAX_UTC {}", chrono::DateTime::<chrono::Utc>::MIN_UTC.timestamp(), chrono::DateTime::<chrono::Utc>::MAX_UTC.timestamp());
             println!("bv {}", props::c02::boundary_values().len());
+            for (secs, nanos) in [(-9223372037i64, 145224190u32), (-9223372037, 145224192), (9223372036, 854775807), (9223372036, 854775808), (9223372037, 0), (-9223372037, 0), (i64::MAX / 1000, 0)] {
+                if let Some(d) = chrono::Duration::new(secs, nanos) {
+                    let r = std::panic::catch_unwind(|| cel_interpreter::to_value(cel_interpreter::Duration(d)).map(|v| format!("{v:?}")).map_err(|e| e.to_string()));
+                    println!("Duration wrapper ({secs}, {nanos}) = {d:?} => {r:?}");
+                }
+            }
             for src in pos.iter() {
                 let r = std::panic::catch_unwind(|| cel_interpreter::Program::compile(src).map(|_| ()).map_err(|e| e.to_string()));
                 println!("{src:?} => {r:?}");
